@@ -63,9 +63,25 @@ def unit_universe():
     return u
 
 
+def worker_universe():
+    u = []
+    for w in ("w0", "k0", "k1"):
+        for o in (0, 1):
+            u.append(("worker", w, o, "assign", "employer"))
+    for k in ("k0", "k1"):
+        for o in (0, 1):
+            u.append(("worker", k, o, "append", "affiliations"))
+    u.append(("worker", "k0", 0, "assign", "affiliations"))
+    return u
+
+
 def cases(tier, seed):
     b = BOUNDS[tier]
     out = [("seq", ())]
+    wu = worker_universe()
+    for k in range(1, 4):
+        for s in itertools.permutations(wu, k):
+            out.append(("seq", s))
     uu = unit_universe()
     for k in range(1, b["unit_seq_len"] + 1):
         for s in itertools.permutations(uu, k):
@@ -98,7 +114,9 @@ class World:
         self.p = [O.VPerson(f"p{i}") for i in range(NP)]
         self.ceo = O.VCEO(self.p[0])
         self.u = [O.VUnit(f"u{i}") for i in range(NU)]
-        self.objs = self.c + self.p + [self.ceo] + self.u
+        self.orgs = [O.VOrg("o0"), O.VOrg("o1")]
+        self.workers = {"w0": O.VWorker("w0"), "k0": O.VContractor("k0"), "k1": O.VContractor("k1")}
+        self.objs = self.c + self.p + [self.ceo] + self.u + self.orgs + list(self.workers.values())
         self.name = {id(o): repr(o) for o in self.objs}
 
     def person(self, p):
@@ -109,6 +127,8 @@ class World:
         kind = a[0]
         if kind == "unit":
             return (self.u[a[1]], a[4], self.u[a[2]])
+        if kind == "worker":
+            return (self.workers[a[1]], a[4], self.orgs[a[2]])
         if kind == "sub":
             return (self.c[a[1]], "sub_organization_of", self.c[a[2]])
         if kind == "works":
@@ -125,7 +145,7 @@ class World:
         s, f, t = self.fact(a)
         form = a[3]
         if form == "assign":
-            if f in ("works_for", "head_of"):
+            if f in ("works_for", "head_of", "employer"):
                 setattr(s, f, t)
             elif f == "members":
                 setattr(s, f, {t})
@@ -170,7 +190,7 @@ class World:
 def single_valued_conflict(facts, world):
     seen = {}
     for s, f, t in facts:
-        if f in ("works_for", "head_of"):
+        if f in ("works_for", "head_of", "employer"):
             if seen.setdefault((s, f), t) != t:
                 return True
     return False
@@ -236,7 +256,7 @@ def run_case(case):
     if len(exp) > len(asserted):
         res.nontrivial_key = seq
     res.outcome_key = states[-1]
-    kinds = {a[0] + ":" + a[3] + (":" + a[4] if a[0] == "unit" else "") for a in seq}
+    kinds = {a[0] + ":" + a[3] + (":" + a[4] if a[0] in ("unit", "worker") else "") for a in seq}
     res.features = list(kinds) + ["len:%d" % len(seq)]
     if any(s == t for s, f, t in exp):
         res.features.append("closure-has-self-loop(cycle)")
